@@ -154,6 +154,17 @@ theorem code_cumulative_is_running_sum (L cy : Nat) (hcy : 1 ≤ cy) (capex opex
 the cumulative cash flow turns positive, for the code as written -/
 theorem code_payback_is_model (cum : List Rat) : Code.PaybackFragment cum = paybackFixed cum := code_payback_eq cum
 
+/-- the twins in `SBTEconomics.Calculate` (closed-loop SBT reservoirs) are the same functions: every theorem above holds of them too.  On the
+pinned tree the SBT payback scan still started at index 0 (defect F29, repaired in /repo): this obligation is what keeps the twins together. -/
+theorem code_sbt_payback_is_model (cum : List Rat) : Code.PaybackFragmentSBT cum = paybackFixed cum := by
+  rw [sbt_payback_same]; exact code_payback_eq cum
+
+theorem code_sbt_cashflow_fragment_is_model (L cy : Nat) (hcy : 1 ≤ cy) (capex opex : Rat) (rev cum0 : List Rat)
+    (hr : rev.length = L + cy) (hc : cum0.length = L + cy) :
+    Code.CashFlowFragmentSBT rev cum0 capex opex (cy : Int) (L : Int) =
+      (totalSeries L cy capex opex rev, cumsum (totalSeries L cy capex opex rev)) := by
+  rw [sbt_cashflow_same]; exact code_cashflow_fragment_eq L cy hcy capex opex rev cum0 hr hc
+
 example : Code.PaybackFragment (Code.CashFlowFragment [0, 4, 4, 4, 4] [0, 0, 0, 0, 0] 10 0 1 4).2 = 3 + 1/2 := by decide +kernel
 /-- a cumulative of exactly zero at a year end counts as "not yet positive": the crossing is found in the next year -/
 example : Code.PaybackFragment [-40, -30, -20, -10, 0, 10, 20] = 5 := by decide +kernel
